@@ -853,13 +853,13 @@ Proof.
 Qed.
 
 (* without None cells the frame holds every cell's string, whatever the batch *)
-Lemma frame_none_free (b : list rrow) : none_free b = true -> frame_batch b = lift b.
+Lemma frame_none_free (b : list rrow) : none_free b = true -> frame_raw b = lift b.
 Proof. apply frame_rows_none_free. Qed.
 
 Lemma frames_none_free (s : list (list rrow)) : Forall (fun b => none_free b = true) s ->
-  concat (frames s) = lift (concat s).
+  concat (frames_raw s) = lift (concat s).
 Proof.
-  induction 1 as [|b s Hb F IH]; [reflexivity|]. unfold frames in *. cbn [map concat].
+  induction 1 as [|b s Hb F IH]; [reflexivity|]. unfold frames_raw in *. cbn [map concat].
   rewrite IH, frame_none_free by assumption. unfold lift. rewrite map_app. reflexivity.
 Qed.
 
@@ -867,24 +867,56 @@ Qed.
 Lemma raw_split_indep (hash : val -> N) cap edges bound thr ncols (s1 s2 : list (list rrow)) :
   0 <= cap -> Forall (fun b => none_free b = true) s1 -> Forall (fun b => none_free b = true) s2 ->
   concat s1 = concat s2 ->
+  (forall j, card hash cap j (frames_raw s1) = card hash cap j (frames_raw s2)) /\
+  (forall j, counter bound j (frames_raw s1) = counter bound j (frames_raw s2) /\
+             hist edges bound j (frames_raw s1) = hist edges bound j (frames_raw s2)) /\
+  Permutation (rare thr ncols (frames_raw s1)) (rare thr ncols (frames_raw s2)) /\
+  (forall k, get key_eq_dec (rare thr ncols (frames_raw s1)) k = get key_eq_dec (rare thr ncols (frames_raw s2)) k).
+Proof.
+  intros Hc F1 F2 E. apply split_indep; [assumption|]. rewrite !frames_none_free by assumption. rewrite E. reflexivity.
+Qed.
+
+(* through the pipeline (fix 2ffc0d7: fillna('') per batch) the frame is computed cell by cell, so the frames of a
+   history concatenate to the filled table and EVERY history of parsed rows, None cells included, is split independent *)
+Lemma frames_fill (s : list (list rrow)) : concat (frames s) = fill (concat s).
+Proof.
+  induction s as [|b s IH]; [reflexivity|]. unfold frames in *. cbn [map concat]. rewrite IH.
+  unfold frame_batch, fill. rewrite map_app. reflexivity.
+Qed.
+
+Lemma parsed_split_indep (hash : val -> N) cap edges bound thr ncols (s1 s2 : list (list rrow)) :
+  0 <= cap -> concat s1 = concat s2 ->
   (forall j, card hash cap j (frames s1) = card hash cap j (frames s2)) /\
   (forall j, counter bound j (frames s1) = counter bound j (frames s2) /\
              hist edges bound j (frames s1) = hist edges bound j (frames s2)) /\
   Permutation (rare thr ncols (frames s1)) (rare thr ncols (frames s2)) /\
   (forall k, get key_eq_dec (rare thr ncols (frames s1)) k = get key_eq_dec (rare thr ncols (frames s2)) k).
+Proof. intros Hc E. apply split_indep; [assumption|]. rewrite !frames_fill, E. reflexivity. Qed.
+
+(* ... and the statistics are those of the filled table: an absent field is the empty string — a missing symbol
+   by default, skipped by the sketch, the key '' of the counter and of the rare-value machine *)
+Lemma parsed_card (hash : val -> N) cap j (s : list (list rrow)) : 0 <= cap ->
+  card hash cap j (frames s) = card_spec hash cap (column j (fill (concat s))).
+Proof. intro Hc. rewrite card_is_spec by assumption. rewrite frames_fill. reflexivity. Qed.
+
+Lemma fill_no_none (rows : list rrow) j v : In v (column j (fill rows)) -> v = PyNone \/ exists s, v = V s.
 Proof.
-  intros Hc F1 F2 E. apply split_indep; [assumption|]. rewrite !frames_none_free by assumption. rewrite E. reflexivity.
+  unfold column, fill. rewrite map_map. intro I. apply in_map_iff in I. destruct I as [r [E _]]. subst v.
+  destruct (Nat.lt_ge_cases j (length (map fill_cell r))) as [L|L].
+  - right. rewrite map_length in L. rewrite (nth_indep _ PyNone (fill_cell None)) by (rewrite map_length; assumption).
+    rewrite map_nth. destruct (nth j r None); eexists; reflexivity.
+  - left. apply nth_overflow. assumption.
 Qed.
 
-(* None cells break it: pandas stores nan (truthy, a key of its own) when the batch's column also holds
+(* [pre-fix pipeline / direct calls] None cells break it: pandas stores nan (truthy, a key of its own) when the batch's column also holds
    strings and None (falsy, another key) when it does not.  Rows [None; a; None] in one batch or cut 1 | 2 *)
 Lemma none_cells_refuted :
   exists (hash : val -> N) (s1 s2 s3 : list (list rrow)),
     concat s1 = concat s2 /\ concat s1 = concat s3 /\
-    card hash 262144 0 (frames s1) = Some 2%nat /\ card hash 262144 0 (frames s2) = Some 1%nat /\
-    hist [0; 1] 30000 0 (frames s1) = [2; 1] /\ hist [0; 1] 30000 0 (frames s3) = [3; 0] /\
-    rare 1 1 (frames s1) = [((0%nat, V [97%N]), 1)] /\
-    rare 1 1 (frames s3) = [((0%nat, PyNone), 1); ((0%nat, V [97%N]), 1); ((0%nat, NaN), 1)].
+    card hash 262144 0 (frames_raw s1) = Some 2%nat /\ card hash 262144 0 (frames_raw s2) = Some 1%nat /\
+    hist [0; 1] 30000 0 (frames_raw s1) = [2; 1] /\ hist [0; 1] 30000 0 (frames_raw s3) = [3; 0] /\
+    rare 1 1 (frames_raw s1) = [((0%nat, V [97%N]), 1)] /\
+    rare 1 1 (frames_raw s3) = [((0%nat, PyNone), 1); ((0%nat, V [97%N]), 1); ((0%nat, NaN), 1)].
 Proof.
   exists (fun v => match v with V [x] => x | NaN => 1%N | _ => 0%N end),
          [[[None]; [Some [97%N]]; [None]]], [[[None]]; [[Some [97%N]]]; [[None]]], [[[None]]; [[Some [97%N]]; [None]]].
@@ -954,11 +986,11 @@ Module Examples.
   (* coverage: a None cell (nan or None in the frame) is not a missing symbol and the denominator is the
      number of rows: ['u', None, '{}', 'v'] with symbols '', '{}' is 75 *)
   Example ex_cov_none :
-    cov_batch [[]; [123%N; 125%N]] (column 0 (frame_batch [[Some [117%N]]; [None]; [Some [123%N; 125%N]]; [Some [118%N]]])) == 75 /\
-    cov_batch [[]; [123%N; 125%N]] (column 0 (frame_batch [[None]; [None]])) == 100.
+    cov_batch [[]; [123%N; 125%N]] (column 0 (frame_raw [[Some [117%N]]; [None]; [Some [123%N; 125%N]]; [Some [118%N]]])) == 75 /\
+    cov_batch [[]; [123%N; 125%N]] (column 0 (frame_raw [[None]; [None]])) == 100.
   Proof. vm_compute. split; reflexivity. Qed.
 
   (* the frame of a batch: None becomes nan next to strings, stays None in an all-None column *)
-  Example ex_frame : frame_batch [[Some [97%N]; None]; [None; None]] = [[a; PyNone]; [NaN; PyNone]].
+  Example ex_frame : frame_raw [[Some [97%N]; None]; [None; None]] = [[a; PyNone]; [NaN; PyNone]].
   Proof. reflexivity. Qed.
 End Examples.
